@@ -125,49 +125,7 @@ func checkC09(e *Engine, r *Report) {
 		}
 		mult, _ := constant.Int64Val(constant.ToInt(em.Val()))
 		key := "x/feemarket/keeper.Keeper.CalculateBaseFee › gas-limit operand of CalcBaseFee"
-		// GasLimit = X.Uint64() where X is a *big.Int (phi of the alternatives)
-		gl := resolveLocal(hdr["GasLimit"])
-		src := gl
-		if c, _ := callOf(gl); c != nil && isCallTo(c, CallSpec{pkgBig, "Int", "Uint64"}) {
-			src = c.Call.Args[0]
-		}
-		var alts []ssa.Value
-		var blocks []*ssa.BasicBlock
-		if phi, ok := src.(*ssa.Phi); ok {
-			for k, ev := range phi.Edges {
-				alts = append(alts, ev)
-				blocks = append(blocks, phi.Block().Preds[k])
-			}
-		} else {
-			alts, blocks = []ssa.Value{src}, []*ssa.BasicBlock{cbf[0].Block()}
-		}
-		okAll := true
-		var why string
-		for k, a := range alts {
-			a = resolveLocal(a)
-			c, _ := callOf(a)
-			switch {
-			case c != nil && isCallTo(c, CallSpec{pkgBig, "Int", "SetUint64"}):
-				if v, isK := constValue(c.Call.Args[1], 0); isK && constant.Compare(constant.ToInt(v), token.GEQ, constant.MakeInt64(mult)) {
-					continue
-				}
-				okAll, why = false, "SetUint64 operand is not a constant >= the elasticity multiplier"
-			case c != nil && isCallTo(c, CallSpec{pkgBig, "", "NewInt"}):
-				x := c.Call.Args[0]
-				gs, bounds := lowerBoundGuards(calc, x)
-				proved := false
-				for j, g := range gs {
-					if bounds[j] >= mult && blockDominatedByEdge(calc, blocks[k], g) && blockDominatedByEdge(calc, c.Block(), g) {
-						proved = true
-					}
-				}
-				if !proved {
-					okAll, why = false, "big.NewInt(x) is not dominated by a test x >= ElasticityMultiplier ("+itoa(int(mult))+")"
-				}
-			default:
-				okAll, why = false, "gas limit alternative is neither big.NewInt(x) under a lower-bound test nor SetUint64(constant)"
-			}
-		}
+		okAll, why := e.provesGE(hdr["GasLimit"], mult, cbf[0].Block(), 0)
 		r.Check(okAll, key, e.Pos(cbf[0].Pos()), "every alternative of the gas limit is >= "+itoa(int(mult)), "the block gas limit handed to CalcBaseFee can be below the elasticity multiplier (consensus MaxGas 0 or 1): gas target 0, division by zero in EndBlock, chain halt — "+why)
 	})
 
@@ -523,26 +481,50 @@ func checkC09(e *Engine, r *Report) {
 		okD := len(dl.AnonFuncs) == 1
 		if okD {
 			fn := dl.AnonFuncs[0]
-			okD = false
+			// every return hands back the result of calling a checker built by EthereumTxFeeChecker / CosmosTxFeeChecker
+			// (directly, or through a local that is one of the two), and both occur; the Ethereum one only under the lane predicate
+			seen := map[string]bool{}
+			ethG, _ := laneGuards(fn)
+			okD = len(returnsOf(fn)) > 0
 			for _, ret := range returnsOf(fn) {
 				c, _ := callOf(ret.Results[0])
 				if c == nil {
+					okD = false
 					continue
 				}
-				phi, isPhi := c.Call.Value.(*ssa.Phi)
-				if !isPhi || len(phi.Edges) != 2 {
-					continue
+				var makers []*ssa.Call
+				var collect func(v ssa.Value, d int)
+				collect = func(v ssa.Value, d int) {
+					v = resolveLocal(v)
+					if phi, isPhi := v.(*ssa.Phi); isPhi && d < 3 {
+						for _, ev := range phi.Edges {
+							collect(ev, d+1)
+						}
+						return
+					}
+					if cc, _ := callOf(v); cc != nil && cc.Call.StaticCallee() != nil {
+						makers = append(makers, cc)
+						return
+					}
+					makers = append(makers, nil)
 				}
-				var names []string
-				for _, ev := range phi.Edges {
-					if cc, _ := callOf(ev); cc != nil && cc.Call.StaticCallee() != nil {
-						names = append(names, cc.Call.StaticCallee().Name())
+				collect(c.Call.Value, 0)
+				for _, mk := range makers {
+					if mk == nil {
+						okD = false
+						continue
+					}
+					nm := mk.Call.StaticCallee().Name()
+					if nm != "EthereumTxFeeChecker" && nm != "CosmosTxFeeChecker" {
+						okD = false
+					}
+					seen[nm] = true
+					if nm == "EthereumTxFeeChecker" && !(mustPass(fn, mk, ethG) || mustPass(fn, c, ethG)) {
+						okD = false
 					}
 				}
-				if len(names) == 2 && ((names[0] == "EthereumTxFeeChecker" && names[1] == "CosmosTxFeeChecker") || (names[1] == "EthereumTxFeeChecker" && names[0] == "CosmosTxFeeChecker")) {
-					okD = true
-				}
 			}
+			okD = okD && seen["EthereumTxFeeChecker"] && seen["CosmosTxFeeChecker"]
 		}
 		r.Check(okD, "DualLaneFeeChecker › dispatches to the two lane checkers", e.Pos(dl.Pos()), "fc = Ethereum… | Cosmos… ; return fc(ctx, tx)", "the dual-lane fee checker does not return the result of one of the two lane checkers")
 		nah := e.Fn(pkgAnte, "NewAnteHandler")
